@@ -1,7 +1,7 @@
 """C03 — regular-expression strings and `matches` agree with regex semantics.
 
  (1) Lean: Spec/Re.lean + `ends_iff_Matches`; Thm/C03.lean (range_table: the counted-repeat emit table of re.c is
-     equivalent to `range n m e`; vm soundness on the bytecode model; matches_iff for the scan mode);
+     equivalent to `range n m e`; vm soundness on the bytecode model; matches_sound_partial for the scan mode);
  (2) spec-level correspondence: generated regex ASTs (<= 12 nodes, all-greedy or all-lazy, classes, escapes, anchors,
      word boundaries, /i /s, nocase ascii wide fullword, atoms forced into groups / branches / counted repeats) are
      printed as YARA text, run through the real compiler+scanner (complete match list) and the compiled Lean spec;
@@ -23,8 +23,9 @@ MANIFEST = dict(
          "counted repeats denotes exactly e{n,m} for all n <= m (range_table, range_concat); forward-from-the-atom + exhaustive-backward-from-the-atom equals a whole match "
          "with atoms inside groups, alternation branches and + bodies (decompose); everything the VM model reports (callback lengths, *matches, also in the scan mode of "
          "`matches`) comes from a reachable fiber at RE_OPCODE_MATCH (vm_reports_reachable, any bytecode); and on the code of the emit model the VM is SOUND for every expression "
-         "built from literals, ., \\w\\W\\s\\S\\d\\D, ^ $ \\b \\B, .{n,m}, concatenation, alternation, * and + (greedy or lazy), bracket classes, byte mode, forward code (vm_sound_partial). "
-         "NOT proved: counted repeats e{n,m} of a non-dot body inside the VM proof (counter stack), wide mode, backward code, scan mode, VM completeness with "
+         "built from literals, ., \\w\\W\\s\\S\\d\\D, ^ $ \\b \\B, .{n,m}, concatenation, alternation, * and + (greedy or lazy), bracket classes, byte mode, forward code, with "
+         "or without the scan mode (vm_sound_partial; matches_sound_partial: a true `matches` verdict implies a matching substring). "
+         "NOT proved: counted repeats e{n,m} of a non-dot body inside the VM proof (counter stack), wide mode, backward code, VM completeness with "
          "epsilon-loops, atom extraction, Aho-Corasick. That gap is covered by SAMPLING on "
          "every run: generated regexes (<= 12 nodes, all-greedy / all-lazy, anchors, word boundaries, classes, /i /s, nocase ascii wide fullword, atoms forced into groups, "
          "branches and repeats) x buffers (< 1024 bytes) through the real engine vs. the compiled Lean specification (complete match lists, `matches` verdicts through literal "
@@ -33,8 +34,8 @@ MANIFEST = dict(
     design_ref="DESIGN.md §4 D6/D7, §5 C03",
     note=core.TB + "The regex printer and the oracle comparator (vf/checks/re_common.py) are trusted (the printer is inside the AST tie). Spec decisions: which admissible "
                    "length is reported is not constrained beyond membership; with `fullword` an offset must be reported when every admissible length is delimited and must not when "
-                   "none is; ascii+wide strings may report a length of either encoding. Seven listed findings (known_findings.json: empty matches, wide+fullword without atom, "
-                   "nullable counted repeats, `matches` at the end of the operand, dead fiber after a zero-width instruction (abort), zero-width loop (hang), lazy dot chains) are "
+                   "none is; ascii+wide strings may report a length of either encoding. Four listed findings (known_findings.json: empty matches, "
+                   "nullable counted repeats, zero-width loop (hang), lazy dot chains) are "
                    "excused only for their signature; a model/code tie broken without a property-level failing input is reported as `no-failing-input-found`.")
 
 LETTERS = [0x61, 0x62, 0x63]
@@ -275,7 +276,7 @@ def gen_regex(r):
         g = G(r, greedy)
         alts = g.top()
         t = rc.ast_text(rc.norm(alts_ast(alts, greedy)))
-        if not zero_width_loop(t) and not plus_backjump(t, null_only=True):      # (a{0})+ reads out of bounds: listed finding, kept in the corpus
+        if not zero_width_loop(t):
             return alts, greedy
 
 
@@ -347,16 +348,6 @@ def gen_matches_case(r, cid):
     return line, meta
 
 
-def no_backward_code(h_re_line):
-    """True when every automaton entry of string 0 has no backward code (h_re acm= token)"""
-    tok = [t for t in h_re_line.split() if t.startswith("acm=")]
-    if not tok or tok[0] == "acm=-":
-        return False
-    ents = [e.split(":") for e in tok[0][4:].split(";")]
-    mine = [e for e in ents if e[0] == "0"]
-    return bool(mine) and all(e[3] == "-" for e in mine)
-
-
 def parse_ast_text(s):
     """canonical AST text -> nested tuples (only the structure needed for the signatures)"""
     pos = [0]
@@ -402,23 +393,6 @@ def nullable(n):
     return False
 
 
-def killed_fiber_sig(ast_text):
-    """signature of C03-continue-killed-fiber: a zero-width node and a repeat with a nullable body"""
-    try:
-        t = parse_ast_text(ast_text)
-    except Exception:
-        return False
-    zw = [False]; loop = [False]
-
-    def go(n):
-        if n[0] == "zero" and n[1] != "e": zw[0] = True
-        if n[0] in ("star", "plus", "range") and nullable(n[1]): loop[0] = True
-        for x in n[1:]:
-            if isinstance(x, tuple): go(x)
-    go(t)
-    return zw[0] and loop[0]
-
-
 def zero_width_loop(ast_text):
     """signature of C03-zero-width-loop-hang: a repeat whose body is nullable and contains a zero-width assertion"""
     def has_zero(n):
@@ -428,37 +402,6 @@ def zero_width_loop(ast_text):
     def go(n):
         if n[0] in ("star", "plus", "range") and nullable(n[1]) and has_zero(n[1]):
             return True
-        return any(go(x) for x in n[1:] if isinstance(x, tuple))
-    try:
-        return go(parse_ast_text(ast_text))
-    except Exception:
-        return False
-
-
-def ref_off(n):
-    """offset of the instruction _yr_re_emit records for a node inside the node's code (None = null reference)"""
-    k = n[0]
-    if k == "zero": return None if n[1] == "e" else 0
-    if k == "cat": return ref_off(n[1])
-    if k == "plus": return ref_off(n[1])
-    if k == "range":
-        lo, hi = n[2], n[3]
-        if lo > 0: return ref_off(n[1])
-        if hi > lo + 1 or hi > 2: return 0
-        if hi > lo or hi > 1:
-            r = ref_off(n[1])
-            return None if r is None else r + (4 if hi > lo else 0)
-        return None
-    return 0
-
-
-def plus_backjump(ast_text, null_only=False):
-    """signature of C03-plus-backjump: a `+` whose operand's recorded instruction is not the first byte of its code"""
-    def go(n):
-        if n[0] == "plus":
-            r = ref_off(n[1])
-            if r is None or (r != 0 and not null_only):
-                return True
         return any(go(x) for x in n[1:] if isinstance(x, tuple))
     try:
         return go(parse_ast_text(ast_text))
@@ -582,12 +525,6 @@ def run(tier, replay=None):
                 continue
             crashed.add(cid)
             toks = dict(t.split("=", 1) for t in c.split()[1:] if "=" in t)
-            if "C03-continue-killed-fiber" in kf and "yr_re_exec: Assertion" in errx and killed_fiber_sig(toks.get("re", "")):
-                known_hits.setdefault("C03-continue-killed-fiber", []).append(cid)
-                continue
-            if "C03-plus-backjump" in kf and plus_backjump(toks.get("re", ""), null_only=True):
-                known_hits.setdefault("C03-plus-backjump", []).append(cid)
-                continue
             if "C03-zero-width-loop-hang" in kf and rcx == "timeout" and zero_width_loop(toks.get("re", "")):
                 known_hits.setdefault("C03-zero-width-loop-hang", []).append(cid)
                 continue
@@ -633,12 +570,6 @@ def run(tier, replay=None):
             hist["matches_true" if spec["M"] else "matches_false"] += 1
             distinct.add(("m", meta.get("regex"), meta.get("operand")))
             if got != spec["M"]:
-                if spec["onlyEnd"] and got == 0 and "C03-matches-empty-at-end" in kf:
-                    known_hits.setdefault("C03-matches-empty-at-end", []).append(cid)
-                    continue
-                if got == 0 and "C03-plus-backjump" in kf and plus_backjump(toks["re"]):
-                    known_hits.setdefault("C03-plus-backjump", []).append(cid)
-                    continue
                 if got == 0 and "C03-nullable-repeat" in kf and nullable_repeat(toks["re"]):
                     known_hits.setdefault("C03-nullable-repeat", []).append(cid)
                     continue
@@ -661,18 +592,9 @@ def run(tier, replay=None):
         hist["reported"] += len(ms)
         if spec.get("a") or spec.get("w"):
             distinct.add(("s", meta.get("regex"), meta.get("mods"), toks["buf"]))
-        if vs and "w" in fl and "f" in fl and "C03-wide-fullword-noatom" in kf and no_backward_code(al):
-            spec2 = dict(spec); spec2["wf"] = spec.get("wn", {})
-            vs2, known2 = rc.judge(ms, spec2, "a" in fl, "w" in fl, True, blen)
-            if not vs2:
-                known_hits.setdefault("C03-wide-fullword-noatom", []).append(cid)
-                vs, known = [], known2
         if vs and "C03-lazy-dot-chain" in kf and lazy_dot_chain(toks["re"]):
             known_hits.setdefault("C03-lazy-dot-chain", []).append(cid)
             vs, known = [], []
-        if vs and "C03-plus-backjump" in kf and all(v.startswith("missed") for v in vs) and plus_backjump(toks["re"]):
-            known_hits.setdefault("C03-plus-backjump", []).append(cid)
-            vs = []
         if vs and "C03-nullable-repeat" in kf and all(v.startswith("missed") for v in vs) and nullable_repeat(toks["re"]):
             known_hits.setdefault("C03-nullable-repeat", []).append(cid)
             vs = []
@@ -692,13 +614,10 @@ def run(tier, replay=None):
 
     def excuse(line, kind, err):
         toks = dict(t.split("=", 1) for t in line.split()[1:] if "=" in t)
-        if "C03-plus-backjump" in kf and plus_backjump(toks.get("re", ""), null_only=(kind != "subset")):
-            return True
         if kind == "emit":
             return False
         if kind == "crash":
-            return ("C03-continue-killed-fiber" in kf and "yr_re_exec: Assertion" in err and killed_fiber_sig(toks.get("re", ""))) or \
-                   ("C03-zero-width-loop-hang" in kf and zero_width_loop(toks.get("re", "")))
+            return "C03-zero-width-loop-hang" in kf and zero_width_loop(toks.get("re", ""))
         return "C03-nullable-repeat" in kf and nullable_repeat(toks.get("re", ""))
     wres, wfound = rc.check_wfx(core, chk, b, [c for c in cases if c.split(" ", 1)[0] not in hz], excuse, found_so_far=found) if lres.get("driver_ok") else ({}, False)
     found = found or wfound
